@@ -212,9 +212,12 @@ class HD61202Controller:
             dest_start_col: int,
             mirror: bool = False,
         ) -> None:
+            # The display start line (Z address) scrolls the chip's RAM rows.
+            start_line = chip.state.start_line % HD61202.LCD_HEIGHT_PIXELS
             for row in range(32):
-                page = start_page + row // 8
-                bit = row % 8
+                y_vram = (start_page * 8 + row + start_line) % HD61202.LCD_HEIGHT_PIXELS
+                page = y_vram // 8
+                bit = y_vram % 8
                 if mirror:
                     for dest_offset, src_col in enumerate(reversed(column_range)):
                         byte = chip.vram[page][src_col]
